@@ -317,6 +317,8 @@ def gen_stream(rng):
     batches = []
     for _ in range(rng.choice([2, 4, 6, 10])):
         batches.append([one() for _ in range(rng.choice([1, 1, 2, 3, 5]))])
+        if rng.random() < 0.25:
+            batches.append([{"subscribe": rng.choice(["storage", "storage", "helper", "stub_client"])}])
     return {"seeds": seeds, "subs": subs, "batches": batches}
 
 
@@ -452,8 +454,11 @@ def run_stream(ctx, case, workdir, n):
     pool = keypool(case["seeds"])
     subs = case["subs"]
     T = Tables(pool, subs)
-    batches = [[wire_tuple(x["w"]) for x in b] for b in case["batches"]]
-    toks = [[T.token(w, sorted(set(k for k in (x["meta"].get("signer"), x["meta"].get("claimed")) if isinstance(k, int))))
+    # a batch `[{"subscribe": name}]` is a subscribe_to(name) call at that point of the history
+    marker = lambda cb: cb[0]["subscribe"] if (len(cb) == 1 and "subscribe" in cb[0]) else None
+    batches = [None if marker(b) is not None else [wire_tuple(x["w"]) for x in b] for b in case["batches"]]
+    toks = [["+%d" % T.svcid(marker(cb))] if b is None else
+            [T.token(w, sorted(set(k for k in (x["meta"].get("signer"), x["meta"].get("claimed")) if isinstance(k, int))))
              for w, x in zip(b, cb)] for b, cb in zip(batches, case["batches"])]
     line = "intro %s %s" % (",".join(str(T.svcid(s)) for s in subs) or "-", " | ".join(" ".join(b) for b in toks))
     line = " ".join(line.split())
@@ -470,7 +475,19 @@ def run_stream(ctx, case, workdir, n):
     outs = []
     raisedA = []
     seenwires = []
+    subscribed = set(subs)
     for bi, b in enumerate(batches):
+        if b is None:
+            name = marker(case["batches"][bi])
+            first = name not in subscribed          # only the first observer of a service records: one entry per notify() call
+            subscribed.add(name)
+            d0 = len(sinkA)
+            for client, sink in ((A, sinkA),) + (() if single else ((B, sinkB),)):
+                client.subscribe_to(name, (lambda key_s, ann, sink=sink: sink.append((key_s, ann))) if first else (lambda key_s, ann: None))
+            outs.append("U=-;C=0.0.0.0.0;D=%s" % (",".join("%d:%d" % (kid(k), T.content(a)) for (k, a) in sinkA[d0:]) or "-"))
+            ctx.count("subscribe_to:" + ("new-service" if first else "further-observer"))
+            ctx.case(("|".join(" ".join(t) for t in toks[:bi]) + "//" + toks[bi][0]) if bi > 0 else None)
+            continue
         us = []
         for w, tok in zip(b, toks[bi]):
             try:
@@ -533,6 +550,8 @@ def run_stream(ctx, case, workdir, n):
         last = {}
         for (key_s, ann) in sink:
             idx = (str(ann["service-name"]), kid(key_s))        # per verifying key, whatever the spelling
+            if idx in last and T.content(last[idx]) == T.content(ann):
+                continue                    # the stored announcement notified again (late subscription), not a replacement
             if idx in last and "seqnum" in last[idx] and num(last[idx]["seqnum"]):
                 o = last[idx]["seqnum"]
                 ocls = "0" if o == 0 else "negative" if o < 0 else "huge" if o >= 2**63 else "non-integer-number" if not isinstance(o, int) else "positive"
@@ -582,6 +601,9 @@ CORPUS = [
     {"reuse_sig": True},
     # other spellings of a genuine key string on genuinely signed stale / fresh announcements (seed C34-c accepted them as new identities)
     {"spellings": True},
+    # late subscribe_to: a further observer of "storage" is told the stored announcement again, a first observer of "helper"
+    # nothing (nothing is stored for unsubscribed services); the stale announcement afterwards is still refused
+    {"late_subscribe": True},
     # the table of remembered announcements must not forget: a victim publishes seqnum 1..5, 257 one-shot keys announce, then
     # the victim's seqnum 3 is replayed (seed C34-e evicted the oldest entries beyond 256; 2 victims + 257 one-shot keys)
     {"many_keys": 257},
@@ -637,6 +659,12 @@ def corpus_case(spec):
         return [msg, b"v0-" + b2a(ed25519.sign_data(pool[k][0], msg)), pool[k][2]]
     if "many_keys" in spec:
         return many_keys_history(None, spec["many_keys"])
+    if "late_subscribe" in spec:
+        ok = {"kind": "new", "signer": 0, "claimed": 0, "intact": True}
+        mk = lambda svc, sq: {"w": [enc(f) for f in honest(0, {"service-name": svc, "seqnum": sq, "nickname": "a"})], "meta": ok}
+        return {"seeds": seeds, "subs": ["storage"],
+                "batches": [[mk("storage", 5), mk("helper", 5)], [mk("storage", 7)], [{"subscribe": "storage"}], [{"subscribe": "helper"}],
+                            [dict(mk("storage", 5), meta=dict(ok, kind="old")), mk("helper", 6)], [{"subscribe": "helper"}]]}
     if "reuse_sig" in spec:
         g = honest(0, {"service-name": "storage", "seqnum": 1, "nickname": "a", "x": 0})
         batches = [[{"w": [enc(f) for f in g], "meta": {"kind": "new", "signer": 0, "claimed": 0, "intact": True}}]]
